@@ -296,6 +296,7 @@ func (env *zzC20Env) checkError(w int, rec *zzC20Rec, err error, name string, co
 		}
 		zz.Observe("json.status", rec.status)
 		zz.Observe("json.error", got.Name)
+		zz.Observe("json.body", string(rec.body)) // exact under the engine's JSON model: compared with the real bytes on replay
 	}
 	redirect := func(sep string) {
 		zz.Cover("redirect:"+what, true)
@@ -310,6 +311,7 @@ func (env *zzC20Env) checkError(w int, rec *zzC20Rec, err error, name string, co
 			vals.Set("x", "1")
 		}
 		want := base + sep + zzC20Encode(vals)
+		zz.Observe("location", rec.hdr.Get("Location"))
 		zz.Assert(rec.hdr.Get("Location") == want, what+": Location is base + separator + query-encoded values")
 		zz.Assert(len(rec.body) == 0, what+": redirect has no body")
 	}
@@ -439,6 +441,12 @@ func ZZ_C20_errwriters() {
 	env.writeError(w, rec, err)
 	zz.Observe("status", rec.status)
 	env.checkError(w, rec, err, name, code)
+	if name == "invalid_request" {
+		// one covering model per writer in which the texts need escaping: replayed natively, and the observed
+		// body / Location (exact under the engine's encoder models) are compared with the real bytes
+		zz.Cover("special-characters:"+zzC20WriterNames[w],
+			zz.And(zz.And(strings.Contains(hint, "\""), strings.Contains(debug, "<")), strings.Contains(state, "&")))
+	}
 }
 
 // ---- H2: non-interference of the debug field ----------------------------------------------------
@@ -508,6 +516,51 @@ func ZZ_C20_nonint() {
 	zz.Assert(zzC20SameValues(url.Values(rec1.hdr), url.Values(rec2.hdr)), what+": hidden debug does not influence the headers")
 	zz.Assert(string(rec1.body) == string(rec2.body), what+": hidden debug does not influence the body")
 	zz.Assert(rec1.nwrites == rec2.nwrites, what+": hidden debug does not influence the number of writes")
+}
+
+// ---- concrete supplement: texts outside the engine's symbolic alphabet ---------------------------
+
+// zzC20Nasty: control characters, HTML, quotes, backslashes, non-UTF-8 bytes, JS line separators.
+var zzC20Nasty = []string{
+	"a\"b\\c</script><img src=x onerror=alert(1)>&amp;",
+	"line1\r\nSet-Cookie: x=1\x00\x07\x1b[31m",
+	"\xff\xfe\xc0\xaf invalid utf-8 \xed\xa0\x80",
+	"\u2028\u2029 \u00e9\u4e16\u754c %26%3D+&=#?",
+	"';--\"}{\"error\":\"ok\",\"x\":\"",
+}
+
+// ZZ_C20_nasty: the same writer checks and the same non-interference comparison on fixed texts with
+// control characters, HTML, non-UTF-8 bytes (the symbolic strings of the other harnesses range over
+// printable ASCII only). Everything is concrete, so the engine runs the real encoders.
+func ZZ_C20_nasty() {
+	zz.SetOption("c20.structural", 1)
+	w := zz.Choice("writer", zzWCount)
+	i := zz.Choice("text", len(zzC20Nasty))
+	j := (i + 1) % len(zzC20Nasty)
+	hint, debug, debug2, state := zzC20Nasty[(i+2)%len(zzC20Nasty)], zzC20Nasty[i], zzC20Nasty[j], zzC20Nasty[(i+3)%len(zzC20Nasty)]
+	legacy := zz.Choice("legacy", 2) == 1
+	expose := zz.Choice("expose", 2) == 1
+	errs := zzC20AllErrors()
+	base := errs[zz.Choice("err", 3)]
+	err := base.WithHint(hint).WithDebug(debug)
+	env := zzC20NewEnv(w, legacy, expose, state)
+	rec := zzC20NewRec()
+	env.writeError(w, rec, err)
+	zz.Observe("status", rec.status)
+	env.checkError(w, rec, err, base.ErrorField, base.CodeField)
+	e := ErrorToRFC6749Error(err).WithLegacyFormat(legacy).WithExposeDebug(expose)
+	zz.Assert(!strings.Contains(e.GetDescription(), "\""), "GetDescription contains no double quote")
+	if !expose {
+		zz.Cover("nasty:hidden", true)
+		rec2 := zzC20NewRec()
+		env.writeError(w, rec2, base.WithHint(hint).WithDebug(debug2))
+		what := zzC20WriterNames[w]
+		zz.Assert(rec.status == rec2.status, what+": hidden debug does not influence the status")
+		zz.Assert(zzC20SameValues(url.Values(rec.hdr), url.Values(rec2.hdr)), what+": hidden debug does not influence the headers")
+		zz.Assert(string(rec.body) == string(rec2.body), what+": hidden debug does not influence the body")
+	} else {
+		zz.Cover("nasty:exposed", true)
+	}
 }
 
 // ---- H3: cache headers on the success writers ---------------------------------------------------
@@ -637,8 +690,11 @@ func ZZ_C20_reflect() {
 		cfg.FormPostHTMLTemplate = tmpl
 	}
 	f.WriteAuthorizeResponse(ctx, rec, zzC20AuthorizeRequest(redirect, true, mode, state), resp)
+	// a covering model (replayed natively, observations compared) in which the reflected values need encoding
+	zz.Cover("special-characters:"+what, zz.And(zz.And(strings.Contains(state, "&"), strings.Contains(code, "\"")), strings.Contains(extra, "<")))
 	zz.Cover("mode:"+what, true)
 	zz.Observe("status", rec.status)
+	zz.Observe("location", rec.hdr.Get("Location"))
 	zzC20CacheHeaders(rec, what)
 	switch k {
 	case 0, 1:
